@@ -3,6 +3,7 @@
 package checks
 
 import (
+	"strings"
 	"fmt"
 	"math/rand"
 	"testing"
@@ -638,8 +639,22 @@ func c09History(r *report.R, id string) {
 			op := "CreateClawbackVestingAccount"
 			if viaConvert {
 				op = "ConvertIntoVestingAccount"
+				// one list may be left out: the module then substitutes a single zero-length period
+				// carrying the other list's total (instant unlock / instant vesting)
+				switch rng.Intn(6) {
+				case 0:
+					msg = vestingtypes.NewMsgConvertIntoVestingAccount(signer.Addr, target.Addr, time.Unix(st, 0).UTC(), nil, vest, exists, false, nil)
+					lock = sdkvesting.Periods{{Length: 0, Amount: vest.TotalAmount()}}
+					cond += ",lockup-left-out"
+				case 1:
+					msg = vestingtypes.NewMsgConvertIntoVestingAccount(signer.Addr, target.Addr, time.Unix(st, 0).UTC(), lock, nil, exists, false, nil)
+					vest = sdkvesting.Periods{{Length: 0, Amount: lock.TotalAmount()}}
+					cond += ",vesting-left-out"
+				}
+			}
+			if viaConvert && msg == nil {
 				msg = vestingtypes.NewMsgConvertIntoVestingAccount(signer.Addr, target.Addr, time.Unix(st, 0).UTC(), lock, vest, exists, false, nil)
-			} else {
+			} else if !viaConvert {
 				msg = vestingtypes.NewMsgCreateClawbackVestingAccount(signer.Addr, target.Addr, time.Unix(st, 0).UTC(), lock, vest, exists)
 			}
 			if exists {
@@ -665,9 +680,15 @@ func c09History(r *report.R, id string) {
 					return
 				}
 				r.Nontriv("hist|" + op + "|" + cond)
+				if strings.Contains(cond, "left-out") {
+					r.Count("grants_with_a_list_left_out_accepted", 1)
+				}
 			} else {
 				r.Count("rejected/"+op, 1)
 				r.Note("rejected %s: %.90s", op, log)
+				if strings.Contains(cond, "left-out") {
+					r.Note("rejected with a list left out (%s): %.200s", cond, log)
+				}
 			}
 		case k < 7: // clawback
 			signer := curFunder()
